@@ -639,6 +639,10 @@ func (bridge *ExprBridge) convertLikeToFunction(field, pattern string) string {
 // 支持%（匹配任意字符序列）和_（匹配单个字符）。
 // 采用经典双指针回溯算法，最坏 O(n*m)，对抗性模式不会指数膨胀。
 func (bridge *ExprBridge) matchesLikePattern(text, pattern string) bool {
+	if !likeASCII(text) || !likeASCII(pattern) {
+		// "_" stands for one CHARACTER: compare by runes when a multi-byte character is involved
+		return likeRunes([]rune(text), []rune(pattern))
+	}
 	ti, pi := 0, 0
 	starIdx, matchIdx := -1, 0
 	for ti < len(text) {
@@ -825,4 +829,39 @@ func EvaluateWithBridge(expression string, data map[string]any) (any, error) {
 // 便捷函数：获取所有可用函数信息
 func GetAllAvailableFunctions() map[string]any {
 	return GetExprBridge().GetFunctionInfo()
+}
+
+func likeASCII(s string) bool {
+	for i := 0; i < len(s); i++ {
+		if s[i] >= 0x80 {
+			return false
+		}
+	}
+	return true
+}
+
+// likeRunes is the same two-pointer LIKE matcher over characters instead of bytes.
+func likeRunes(text, pattern []rune) bool {
+	ti, pi := 0, 0
+	starIdx, matchIdx := -1, 0
+	for ti < len(text) {
+		if pi < len(pattern) && pattern[pi] == '%' {
+			starIdx = pi
+			matchIdx = ti
+			pi++
+		} else if pi < len(pattern) && (pattern[pi] == '_' || pattern[pi] == text[ti]) {
+			ti++
+			pi++
+		} else if starIdx != -1 {
+			pi = starIdx + 1
+			matchIdx++
+			ti = matchIdx
+		} else {
+			return false
+		}
+	}
+	for pi < len(pattern) && pattern[pi] == '%' {
+		pi++
+	}
+	return pi == len(pattern)
 }
